@@ -534,7 +534,20 @@ def machine_rule(P, r):
     if not dtests:
         raise AnalysisBroken('anchor vanished: get_failure_pattern does not compare list elements with k')
     # loop continuation test: element > -1 ; force "list not exhausted"
-    conts = [c for c in gfp.insts() if c.op == 'icmp' and c.bb is h]
+    # (the sentinel test of the list, wherever the loop condition puts it: `elem > -1`, `pattern != GE_HD && elem >= 0`, ...)
+    from .oblig import _eval_icmp as _ev_s
+    conts = []
+    for c in gfp.insts():
+        if c.op != 'icmp' or c.bb not in body:
+            continue
+        a_, b_ = strip_int_casts(gfp, c.ops[0]), strip_int_casts(gfp, c.ops[1])
+        ad_, bd_ = gfp.defs.get(a_), gfp.defs.get(b_)
+        if ad_ is not None and ad_.op == 'load' and b_ in ('-1', '0') and a_ not in kvals | {pat.res}:
+            conts.append((c, int(_ev_s(c.pred, 5, int(b_), 32))))
+        elif bd_ is not None and bd_.op == 'load' and a_ in ('-1', '0') and b_ not in kvals | {pat.res}:
+            conts.append((c, int(_ev_s(c.pred, int(a_), 5, 32))))
+    if not conts:
+        conts = [(c, 1 if c.pred in ('sgt', 'sge', 'ne') else 0) for c in gfp.insts() if c.op == 'icmp' and c.bb is h]
     first = None
     for b in gfp.order:
         if b is h:
@@ -560,8 +573,8 @@ def machine_rule(P, r):
 
             for ins, sense in dtests:
                 seed[ins.res] = int(isdata == sense)
-            for c in conts:
-                seed[c.res] = 1 if c.pred in ('sgt', 'sge', 'ne') else 0
+            for c, tv_ in conts:
+                seed[c.res] = tv_
             outs = oblig.simulate(gfp, None, None, seed=seed, start=h.insts[len([x for x in h.insts if x.op == 'phi'])], watch=(h, pat.res))
             vals = set()
             for kind, val, tr in outs:
